@@ -76,7 +76,10 @@ class Sink:
                     return r.choice(times)
                 if names and y < 0.7:
                     return r.choice(names)
-                return self.fresh("lo")
+                n = self.fresh("lo")
+                if r.random() < 0.5:
+                    names.append(n)     # a bound binding nothing binds, used like any other binding of the pattern
+                return n
             out = '"q"@[%s,%s]' % (b(), b())
         if r.random() < 0.12:
             al.append("AS " + self.pick_alias(names, "pa"))
@@ -130,7 +133,8 @@ class Sink:
         natural = [("?s \"w\"@[] ?w", ["?s", "?w"], []), ("?s \"q\"@[?tq] ?x", ["?s", "?tq", "?x"], ["?tq"]),
                    ("?o \"p\"@[] ?o2", ["?o", "?o2"], []), ("?s \"p\"@[] ?o", ["?s", "?o"], []),
                    ("?s ?p ?o", ["?s", "?p", "?o"], []), ("?o \"w\"@[] ?w2", ["?o", "?w2"], []),
-                   ("?s \"q\"@[?lo9,?hi9] ?x", ["?s", "?x"], []), ("?s \"q\"@[?tq,] ?x2", ["?s", "?x2"], []),
+                   ("?s \"q\"@[?lo9,?hi9] ?x", ["?s", "?x", "?lo9"], []), ("?s \"q\"@[?tq,] ?x2", ["?s", "?x2"], []),
+                   ("?s \"q\"@[?lo8,] ?x", ["?s", "?x", "?lo8"], []),
                    ("?o \"q\"@[?w,?w] ?x3", ["?o", "?x3"], [])]
         big = getattr(self, "big", False)
 
@@ -142,7 +146,7 @@ class Sink:
 
         for i in range(k):
             if r.random() < (0.35 if i == 0 else 0.55):
-                pool = natural[:6] if i == 0 else natural
+                pool = (natural[:6] + natural[-1:]) if i == 0 else natural
                 if big and i > 0:
                     pool = [x for x in pool if x[0].split()[0] in names]
                 if pool:
@@ -187,8 +191,38 @@ class Sink:
             return "NOT %s" % atom()
         return "(%s) %s (%s)" % (atom(), r.choice(["AND", "OR"]), atom())
 
+    def loose_first(self):
+        """the FIRST clause has a bound written with a binding that nothing binds: the clause is fetched as a whole,
+        and the binding, which the semantic layer accepts like any other, has no cell in any row"""
+        r = self.r
+        lo, hi = r.choice([("?lo8", ""), ("", "?hi8"), ("?lo8", "?hi8")])
+        pos = r.choice(["p", "p", "o"])
+        if pos == "p":
+            c1 = "?s \"q\"@[%s,%s] ?x" % (lo, hi)
+        else:
+            c1 = "?s ?p \"q\"@[%s,%s] AS ?x" % (lo, hi)
+        parts = [c1] + (["?s \"p\"@[] ?o"] if r.random() < 0.4 else [])
+        b = lo or hi
+        sel = r.choice(["?s, ?x, %s" % b, "%s, ?x" % b, "?s, %s AS ?z" % b, "?s, COUNT(%s) AS ?n" % b, "%s, COUNT(?x) AS ?n" % b])
+        txt = "SELECT %s FROM %s WHERE { %s }" % (sel, r.choice(["?a", "?a, ?b", "?c"]), " . ".join(parts))
+        if "COUNT(%s)" % b in sel:
+            txt += " GROUP BY ?s"
+        elif "COUNT(?x)" in sel:
+            txt += " GROUP BY " + b
+        out = "?z" if " AS ?z" in sel else (b if "COUNT(%s)" % b not in sel else "?n")
+        x = r.random()
+        if x < 0.4:
+            txt += " ORDER BY %s%s" % (out, r.choice(["", " DESC", ", ?s"]) if "?s" in sel else "")
+        elif x < 0.75:
+            txt += " HAVING %s %s %s" % (out, r.choice(["=", "<", ">"]), r.choice([out, TIMES[1], LITS[0]]))
+        if r.random() < 0.2:
+            txt += " LIMIT \"2\"^^type:int64"
+        return txt + ";"
+
     def select(self):
         r = self.r
+        if r.random() < 0.04:
+            return self.loose_first()
         w, mand, onames, times = self.where()
         allnames = mand + onames
         if not allnames:
@@ -220,13 +254,26 @@ class Sink:
                 elif b not in outs:
                     sel.append(b)
                     outs.append(b)
+        # a bound binding that nothing binds ("q"@[?lo8,]) is, for the semantic layer, a binding like any other: sort by it
+        # or compare it, so that a row without a cell for it reaches the sorter / the evaluator
+        loose = [n for n in outs if n.startswith("?lo")]
+        if not group and not loose and r.random() < 0.5:
+            cand = [n for n in allnames if n.startswith("?lo") and n not in outs]
+            if cand:
+                sel.append(cand[0])
+                outs.append(cand[0])
+                loose = [cand[0]]
         txt = "SELECT %s FROM %s WHERE { %s }" % (", ".join(sel), graphs, w)
         if group:
             txt += " GROUP BY " + ", ".join(group)
-        if r.random() < 0.35:
+        if loose and r.random() < 0.5:
+            txt += " ORDER BY " + ", ".join([loose[0]] + ([r.choice(outs)] if r.random() < 0.3 else []))
+        elif r.random() < 0.35:
             ks = [r.choice(outs + allnames[:1]) for _ in range(r.choice([1, 1, 2]))]
             txt += " ORDER BY " + ", ".join("%s %s" % (k, r.choice(["ASC", "DESC", ""])) for k in ks)
-        if r.random() < 0.3:
+        if loose and r.random() < 0.4:
+            txt += " HAVING %s %s %s" % (loose[0], r.choice(["=", "<", ">"]), r.choice([loose[0]] + TIMES[:2]))
+        elif r.random() < 0.3:
             txt += " HAVING " + self.having(outs)
         x = r.random()
         if x < 0.1:
